@@ -261,6 +261,28 @@ harnesses! {
         forget(r);
     }
 
+
+    // ---- reset() must size the next input from the ORIGINAL ratio: symbolic ratio before the reset,
+    // then two plain calls (no setter in between, which would recompute the need)
+    #[kani::unwind(44)]
+    fn c03_ffo_reset_plain(nd) {
+        let mut r = FastFixedOut::<f64>::new(1.0, 2.0, PolynomialDegree::Nearest, 10, 1).unwrap();
+        let k = nd.u8();
+        let pre = (k as f64) / 32.0;
+        let ramp = nd.bool();
+        nd.assume(r.set_resample_ratio(pre, ramp).is_ok());
+        r.reset();
+        let mut pos = 0usize;
+        let mut xin = [0.0f64; 28];
+        let mut out = [0.0f64; 12];
+        let o = call1(nd, &mut r, &mut pos, 0, 0, &mut xin, &mut out);
+        obs_checks!(o, true, "base");
+        let o = call1(nd, &mut r, &mut pos, 0, 0, &mut xin, &mut out);
+        obs_checks!(o, true, "base");
+        cover!(pre < 0.6, "ratio lowered before the reset");
+        forget(r);
+    }
+
     // ---- three successive ratio changes on tiny chunks (each setter recomputes the input need)
     #[kani::unwind(10)]
     fn c03_ffo_three_changes(nd) { ffo!(nd, f64, PolynomialDegree::Linear, 3, 2.0, 14, 5, "base", grid, [(1.0, 1), (1.25, 1), (1.25, 1)]); }
